@@ -51,7 +51,7 @@ class MappingIsoparametric(Mapping):
         p = self.mesh.doflocs
         t = self.mesh.dofs.element_dofs
         if tind is None:
-            out = np.zeros((t.shape[1], X.shape[1]))
+            out = np.zeros((t.shape[1], X.shape[-1]))
             for itr in range(t.shape[0]):
                 phi, _ = self.elem.lbasis(X, itr)
                 out += p[i, t[itr, :]][:, None] * phi
@@ -74,7 +74,7 @@ class MappingIsoparametric(Mapping):
             facets = np.vstack((facets,
                                 self.mesh.dofs.facet_dofs))
         if find is None:
-            out = np.zeros((facets.shape[1], X.shape[1]))
+            out = np.zeros((facets.shape[1], X.shape[-1]))
             for itr in range(facets.shape[0]):
                 phi, _ = self.bndelem.lbasis(X, itr)
                 out += p[i, facets[itr, :]][:, None] * phi
@@ -97,7 +97,7 @@ class MappingIsoparametric(Mapping):
             facets = np.vstack((facets,
                                 self.mesh.dofs.facet_dofs))
         if find is None:
-            out = np.zeros((facets.shape[1], X.shape[1]))
+            out = np.zeros((facets.shape[1], X.shape[-1]))
             for itr in range(facets.shape[0]):
                 _, dphi = self.bndelem.lbasis(X, itr)
                 out += p[i, facets[itr, :]][:, None] * dphi[j]
@@ -113,7 +113,7 @@ class MappingIsoparametric(Mapping):
         p = self.mesh.doflocs
         t = self.mesh.dofs.element_dofs
         if tind is None:
-            out = np.zeros((t.shape[1], X.shape[1]))
+            out = np.zeros((t.shape[1], X.shape[-1]))
             for itr in range(t.shape[0]):
                 _, dphi = self.elem.lbasis(X, itr)
                 out += p[i, t[itr, :]][:, None] * dphi[j]
